@@ -100,7 +100,10 @@ def check_function(case):
             break
     for src in ("(%s #* xs)" % op, "(do (import hy.pyops) ((. hy.pyops %s) #* xs))" % op, "(%s 1 #* xs)" % op if op == "and" else "(%s 0 #* xs)" % op):
         try:
-            got = hy.eval(hy.read(src), {"xs": list(vals)})
+            f = _FN.get(src)
+            if f is None:
+                f = _FN[src] = hy.eval(hy.read("(fn [xs] %s)" % src), {"hy": hy})
+            got = f(list(vals))
         except Exception as e:  # noqa
             return ("function-form-raised:" + op, dict(source=src, xs=repr(vals), error=repr(e)[:200]))
         w = want
@@ -109,6 +112,9 @@ def check_function(case):
         if P.canon(got) != P.canon(w):
             return ("function-form-value:" + op, dict(source=src, xs=repr(vals), expected=P.canon(w), actual=P.canon(got)))
     return None
+
+
+_FN = {}
 
 
 def nontrivial(case):
@@ -143,6 +149,16 @@ def shard(ctx):
             ctx=draw(st.sampled_from(CONTEXTS)),
             mode=draw(st.sampled_from(["module", "function"])),
         )
+
+    # function forms, enumerated: every value vector over the 8 pool values up to arity 3 (thorough: 4), both operators
+    k = 0
+    for op in ("and", "or"):
+        for n in range(0, 4 if ctx.quick else 5):
+            for combo in itertools.product(range(8), repeat=n):
+                k += 1
+                if k % ctx.n != ctx.k:
+                    continue
+                run_one(ctx, dict(kind="function", op=op, truth=[c >= 4 for c in combo], vsel=[c % 4 for c in combo]))
 
     ctx.hyp(cases(), lambda c: run_one(ctx, c), ctx.per_shard(3000, 60000), "sampled")
 
